@@ -2,6 +2,7 @@ package main
 
 import (
 	"fmt"
+	"github.com/xujiajun/nutsdb"
 	"runtime/debug"
 )
 
@@ -13,6 +14,31 @@ func mergeNoPanic(run *Runner) (err error, panicS string) {
 		}
 	}()
 	return run.DB.Merge(), ""
+}
+
+// preMergeHandle turns a fresh handle into one that has already completed a Merge: a few segments of an unrelated
+// bucket ("pre", not part of any observed universe) are written and merged.  Whatever Merge leaves changed on the
+// handle (flags, counters no longer maintained, the active file) is then in effect for everything the caller does
+// next - with buckets and structures that did not exist when the Merge ran.  Returns false if the Merge failed.
+func preMergeHandle(c *CaseCtx, db *nutsdb.DB, cfg Cfg) bool {
+	val := make([]byte, int(cfg.Seg)/3)
+	for i := range val {
+		val[i] = 1
+	}
+	for k := 0; k < 8; k++ {
+		if err := db.Update(func(tx *nutsdb.Tx) error { return tx.Put("pre", []byte(fmt.Sprintf("p%d", k%3)), val, 0) }); err != nil {
+			return false
+		}
+	}
+	ok := false
+	func() {
+		defer func() { recover() }()
+		ok = db.Merge() == nil
+	}()
+	if ok {
+		c.Stat("handles_merged_before_the_history", 1)
+	}
+	return ok
 }
 
 // drainMergeReput empties one bucket key by key (every key that was ever put there is deleted, none that was not),
@@ -37,7 +63,7 @@ func drainMergeReput(run *Runner, g *Gen, class string) bool {
 	if len(ops) > 0 {
 		run.Tx(TxSpec{Mode: "update", Ops: ops}, false)
 	}
-	if run.Dead || c.Violated() {
+	if run.Dead || c.Unexplained() > 0 {
 		return false
 	}
 	for try := 0; try < 2; try++ {
@@ -65,13 +91,13 @@ func drainMergeReput(run *Runner, g *Gen, class string) bool {
 				n++
 			}
 		}
-		if run.Dead || c.Violated() || !run.CheckObs("after-merge-reput") {
+		if run.Dead || c.Unexplained() > 0 || !run.CheckObs("after-merge-reput") {
 			return false
 		}
 		g.M = run.M
 		run.Tx(g.ReadTx(8), false)
 		run.Tx(TxSpec{Mode: "view", Ops: []Op{{K: "GetAll", B: b}, {K: "PrefixScan", B: b, Key: u.KVKeys[0][:1], I: 0, J: -1}, {K: "PrefixScan", B: b, Key: u.KVKeys[0][:1], I: 0, J: 3}}}, false)
-		if c.Violated() {
+		if c.Unexplained() > 0 {
 			return false
 		}
 		// second round: merge again with the re-put keys live
